@@ -23,3 +23,19 @@ package smtp
 //@ uninterp func isDeadline(e error) bool
 //@ extern func errors.Is(err error, target error) bool
 //@   ensures target == context.DeadlineExceeded ==> result == isDeadline(err)
+
+// ---- C15: header sanity for submissions ----
+// A submission is accepted only with a From field that parses; several author addresses require a Sender field;
+// a Sender field must parse.
+// Helpers of submissionPrepare: a random Message-ID, the clock and a date parser (no effect on tracked state; assumed).
+//@ extern func msgIDField() (id string, err error)
+//@ extern func now$var() time.Time
+//@ extern func parseMessageDateTime(maybeDate string) (t time.Time, err error)
+//@ func (*Session).submissionPrepare
+//@   prop C15
+//@   modifies *
+//@   requires s != nil && header != nil && msgMeta != nil
+//@   ensures result == nil ==> hdrGet(*header, "From") != "" && addrListErr(hdrGet(*header, "From")) == nil
+//@   ensures result == nil && len(addrList(hdrGet(*header, "From"))) > 1 ==> hdrGet(*header, "Sender") != ""
+//@   ensures result == nil && hdrGet(*header, "Sender") != "" ==> addrOneErr(hdrGet(*header, "Sender")) == nil
+//@   loop 0 invariant rangeindex >= 0 ==> (hdrGet(*header, "Sender") != "" ==> addrOneErr(hdrGet(*header, "Sender")) == nil)
